@@ -208,7 +208,7 @@ def split_known(prop, viols, sig):
     return new, hit, known
 
 
-def report_violations(ctx, viols, start, by_id, describe, sig=lambda v: v["why"]):
+def report_violations(ctx, viols, start, by_id, describe, sig=lambda v: v["why"], quiet_unexercised=False):
     """Print KNOWN-FINDING / VIOLATION lines for this property's violations and write replay directories.
     describe(lines, upto, v) -> (headline, info dict, replay text)."""
     prop = ctx.prop
@@ -221,7 +221,7 @@ def report_violations(ctx, viols, start, by_id, describe, sig=lambda v: v["why"]
     for f in known:
         if f["id"] in hit:
             log("KNOWN-FINDING: property=%s %s (%d occurrences this run)" % (prop, f["what"], len(hit[f["id"]])))
-        else:
+        elif not quiet_unexercised:
             log("KNOWN-FINDING: property=%s %s (listed; not exercised by this run)" % (prop, f["what"]))
     seen = {}
     for v in sorted(new, key=lambda v: (v["tr"], v["l"])):
